@@ -40,6 +40,10 @@ namespace BitSerializer::Detail
 			return true;
 		}
 
+		// Need to reset EOF (set by the last short read) for able to rewind the stream
+		if (pos != mStreamPos && mStream.eof()) {
+			mStream.clear();
+		}
 		if (pos == mStreamPos || !mStream.seekg(static_cast<std::streamoff>(pos)).fail())
 		{
 			mStreamPos = pos;
